@@ -426,6 +426,13 @@ EQUIV = [
     ("f(a=g(1, k=2))", "f(a = g(1,k=2))", None),
     ("(f() as r)=cc", "f(!#value as r, #value=cc)", "#value"),
     ("(f(A) as r)=cc", "f(A, !#value as r, #value=cc)", "#value"),
+    # the function position may hold the generic function `*` in every law (f, a, b stand for ANY function)
+    ("* > X", "*(!X)", "x"),
+    ("*(A) > X", "*(A, !X)", "x"),
+    ("* > b > X", "*(b(!X))", "x"),
+    ("a > * > X", "a(*(!X))", "x"),
+    ("* > f() as r", "* > f(!#value as r)", "#value"),
+    ("* > (f() as r)", "*(f(!#value as r))", "#value"),
 ]
 FOCUS_FORMS = ["x", "x:@T", "x as y", "x:@T as y", "*", "#value", "$x", "x=1", "* as x", "* as x:@T"]
 # (the last one constrains the very variable that is the focus of several laws: `f(x=1) > x` keeps the condition)
